@@ -90,7 +90,50 @@ def generate(ck):
                 "threads": bool(i % 25 == 3),
             }
         )
+        if i % 12 == 6:
+            # the same gas quantities as columns of the table build_pvt_gas makes
+            descs[-1]["table"] = {"comp": wl.gas_composition(np.random.default_rng(1000 * int(ck.seed) + i)), "pmax": [400, 1200.0, 3010, 6000.0][(i // 12) % 4]}
     return descs
+
+
+def _table_columns(ck, desc):
+    """Density, z-factor and viscosity columns of a build_pvt_gas table, row by row, against the gas law
+    (own constants) and against the correlation called directly for that row's state point."""
+    from bluebonnet.fluids import build_pvt_gas, gas
+
+    comp = dict(desc["table"]["comp"])
+    dry = comp.pop("dryness")
+    tab = build_pvt_gas(comp, dry, maximum_pressure=desc["table"]["pmax"])
+    Tpc, ppc = gas.pseudocritical_point_Sutton(comp["Gas Specific Gravity"], gas.make_nonhydrocarbon_properties(comp["N2"], comp["H2S"], comp["CO2"]), dry)
+    T, sg = comp["Reservoir Temperature (deg F)"], comp["Gas Specific Gravity"]
+    Tr = (T + 459.67) / (Tpc + 459.67)
+    if not 1.05 <= Tr <= 3.0:
+        ck.count("tables_outside_the_correlations_range")
+        return
+    p = np.asarray(tab["pressure"], dtype=float)
+    rho, Zc, mu = (np.asarray(tab[c], dtype=float) for c in ("Density", "z-factor", "viscosity"))
+    ck.count("table_rows_judged", len(p))
+    law = p * 28.9647 * sg / (Zc * 10.7316 * (T + 459.67))
+    e = float(np.max(np.abs(rho / law - 1)))
+    if not ck.margin("table: Density column = p M / (Z R T) with the table's own Z", e, 1e-4):
+        k = int(np.argmax(np.abs(rho / law - 1)))
+        ck.violation("table-density-is-the-gas-law", {"row": k, "p": float(p[k]), "Density": float(rho[k]), "gas_law": float(law[k]), "rel": e}, desc)
+    rows = sorted({0, 1, len(p) // 3, len(p) // 2, len(p) - 2, len(p) - 1})
+    for k in rows:
+        d = float(gas.density_DAK(T, float(p[k]), Tpc, ppc, sg))
+        v = float(gas.viscosity_Sutton(T, float(p[k]), Tpc, ppc, sg))
+        b = float(gas.b_factor_DAK(T, float(p[k]), Tpc, ppc))
+        if not ck.margin("table: Density row = density_DAK at that row", abs(rho[k] / d - 1), 1e-12):
+            ck.violation("table-column-equals-the-correlation", {"column": "Density", "row": k, "p": float(p[k]), "table": float(rho[k]), "direct": d}, desc)
+        if not ck.margin("table: viscosity row = viscosity_Sutton at that row", abs(mu[k] / v - 1), 1e-12):
+            ck.violation("table-column-equals-the-correlation", {"column": "viscosity", "row": k, "p": float(p[k]), "table": float(mu[k]), "direct": v}, desc)
+        if k == rows[0]:
+            rb0 = rho[k] * b
+        elif not ck.margin("table: Density x Bg the same on every row", abs(rho[k] * b / rb0 - 1), 1e-12):
+            ck.violation("gas-mass-content-independent-of-pressure", {"where": "table Density column x b_factor_DAK", "row": k, "p": float(p[k]), "rho_Bg": float(rho[k] * b), "first_row": float(rb0)}, desc)
+    if not (np.all(mu > 0) and np.all(np.diff(mu) > 0)):
+        ck.violation("viscosity-positive-increasing", {"where": "table viscosity column", "min": float(mu.min()), "n_decreasing": int(np.sum(np.diff(mu) <= 0))}, desc)
+    ck.count("tables_judged")
 
 
 def run_case(ck, desc):
@@ -129,6 +172,9 @@ def run_case(ck, desc):
         for k, i, a, b in bad[:3]:
             fn = ("density_DAK", "b_factor_DAK", "compressibility_DAK", "viscosity_Sutton")[i % 4]
             ck.violation("threads-same-value-as-the-call-made-alone", {"function": fn, "thread": k, "concurrent": a, "alone": b, "n_differing": len(bad)}, desc)
+
+    if desc.get("table"):
+        _table_columns(ck, desc)
 
     # 1. real-gas law with the library's own Z
     law = ps * 28.9647 * sg / (Z * 10.7316 * (T + 459.67))
